@@ -1449,8 +1449,9 @@ impl Linearizer {
         constraints: Vec<Constraint>,
         mut domain: IndexMap<String, DomainVariable>,
     ) -> Self {
-        let bounds = BoundsAnalyzer::analyze(&domain, &constraints);
+        let mut bounds = BoundsAnalyzer::analyze(&domain, &constraints);
         bounds.apply_to_domain(&mut domain);
+        bounds.restrict_to_domain(&domain);
         Self::new_from_with_bounds(constraints, domain, bounds)
     }
 
@@ -1547,8 +1548,9 @@ impl Linearizer {
     /// * `Err(LinearizationError)` - If linearization fails
     pub fn linearize(model: Model) -> Result<LinearModel, LinearizationError> {
         let (objective, constraints, mut domain) = model.into_components();
-        let bounds = BoundsAnalyzer::analyze(&domain, &constraints);
+        let mut bounds = BoundsAnalyzer::analyze(&domain, &constraints);
         bounds.apply_to_domain(&mut domain);
+        bounds.restrict_to_domain(&domain);
         let mut context = Linearizer::new_from_with_bounds(constraints, domain, bounds);
         let objective_type = objective.objective_type.clone();
         let objective_exp = objective.rhs.flatten().simplify();
